@@ -220,6 +220,12 @@ func (h *connHandler) SubS(ctx context.Context, token int, n int) (<-chan cpElem
 	return ch, nil
 }
 
+// SubOnly is Sub with the channel as its only result (no error result): a subscription all the same
+func (h *connHandler) SubOnly(ctx context.Context, token int, n int) <-chan int {
+	ch, _ := h.Sub(ctx, token, n)
+	return ch
+}
+
 // anyElem is element i of a SubAny stream: every third one is an untyped nil, the others numbers and strings
 func anyElem(token, i int) interface{} {
 	switch i % 3 {
@@ -281,6 +287,7 @@ type connClient struct {
 	Sub      func(ctx context.Context, token int, n int) (<-chan int, error)
 	SubS     func(ctx context.Context, token int, n int) (<-chan cpElem, error)
 	SubAny   func(ctx context.Context, token int, n int) (<-chan interface{}, error)
+	SubOnly  func(ctx context.Context, token int, n int) <-chan int
 	SubWait  func(ctx context.Context, token int, n int) (<-chan int, error)
 }
 
